@@ -672,7 +672,8 @@ func (s *Sim) reconcile(fw string) {
 	s.mu.Lock()
 	var ls []*liveTask
 	for _, lt := range s.live {
-		if !lt.Terminal && lt.State != mesos.TASK_STAGING {
+		// implicit reconciliation only reports the tasks of the asking framework
+		if !lt.Terminal && lt.State != mesos.TASK_STAGING && (fw == "" || lt.FwID == "" || lt.FwID == fw) {
 			ls = append(ls, lt)
 		}
 	}
